@@ -60,6 +60,17 @@ def step1 (s : St) (line : String) : St × String :=
     match c.toNat?, lo.toInt?, hi.toInt? with
     | some c, some lo, some hi =>
       if c ≥ s.n || statusOf s c == .down then (s, "bad-op") else
+      if kind == "explain" then
+        -- the cost estimate: the field types of every needed shard must be learnable, and every
+        -- needed shard that exists is counted once (asked of a node that answers)
+        -- (the field's type is asked of the coordinator's own shards and of every node that
+        -- answers; a node that does not is passed over there: if nobody who answers knows the
+        -- field, the plan is empty)
+        let known := (needed s lo hi).any fun sh => !sh.pts.isEmpty && metaOK s c sh
+        if !known then (s, "ok shards=0")
+        else if !(needed s lo hi).all (metaOK s c) then (s, "error")
+        else (s, s!"ok shards={((needed s lo hi).filter fun sh => !sh.pts.isEmpty).length}")
+      else
       if !planOK s c lo hi (kind == "count" || kind == "count2") then (s, "error") else
       let pts := unionPts s lo hi
       let out := match kind with
